@@ -492,6 +492,12 @@ func TestC08(t *testing.T) {
 			xast.Render(gc.Expr, ch, xast.Style{Abbrev: true}),
 			xast.Render(gc.Expr, ch, xast.Style{Parens: true, WS: true, Abbrev: true}),
 		}
+		if rapid.IntRange(0, 39).Draw(t, "deepOrLong") == 0 {
+			// the same expression inside 60-150 pairs of parentheses: redundant parentheses change nothing, however many
+			n := []int{60, 84, 100, 128, 150}[rapid.IntRange(0, 4).Draw(t, "nParens")]
+			c.Texts = append(c.Texts, strings.Repeat("(", n)+c.Texts[0]+strings.Repeat(")", n))
+			st.Class("rendering inside many parentheses")
+		}
 		nBin, precs, kw, _ := opStats(gc.Expr)
 		same := false
 		for _, n := range precs {
